@@ -18,16 +18,17 @@ def gen(c):
 
 
 def run(c):
-    c.rule = ("a case draws 2-6 contributions (simple values/counters, streams of AddValueCounterHost events, arbitrary ItemValue leaves, "
+    c.rule = ("a case draws 2-6 contributions (simple values/counters, streams of agent-side events through the glue AddCounterHost / AddValueCounterHost / ApplyValues / "
+              "ApplyValuesLegacy / ApplyUnique - each stream is also replayed in another order and compared with the sum of its singleton contributions -, arbitrary ItemValue leaves, "
               "each with a small unique sketch sharing values) and evaluates 4 merge programs on the real code (given order, permutations, "
               "random binary trees) through MultiValue.Merge (stream `values`: quick 400, thorough 8000); stream `ts` does the same for API "
-              "rows with tsValues.merge (100 / 2000); stream `sketch` (4 / 80 cases) builds 2-3 sketches of 1..280000 values (sizes around 2^16 included) and merges them with ChUnique.Merge and "
+              "rows with tsValues.merge (100 / 2000) under a random subset of selected columns (unselected columns are zero in every row; a third of the cases select all); stream `sketch` (4 / 80 cases) builds 2-3 sketches of 1..280000 values (sizes around 2^16 included) and merges them with ChUnique.Merge and "
               "MergeRead in several orders. A third of the leaves also take a MultiValue.ApplyUnique event. After every sketch op the real table is compared slot by slot with the table model "
               "and every stored value is looked up with the real insertImpl probe (oracle unique-item-unreachable / unique-count-mismatch). Non-trivial = a merge consumed a random draw / two leaves tie for the minimum / API rows / "
               "sketch operands with different skipDegree; distinct by op-sequence hash")
     c.assumptions += [
         "float64 arithmetic is modelled exactly (Int) inside the exact domain only: integer values, counters that are multiples of 1/4; rounding outside it is not decided",
-        "ChUnique is modelled twice: as a set (SH.Model.Unique, Part 3 theorems) and as the concrete open-addressing table (SH.Model.UniqueTable: buf, place, probing with wrap-around, both rehash loops, the resize relocation loop). Every replayed op is run on both; the table model must reproduce the real table slot by slot (B lines: layout digest, full buf up to 64 slots, and the well-formedness flag). Parts 4/6 prove that every table op commutes with the abstraction, that insertImpl keeps and rehash (both loops) and resize (real loop bound) restore well-formedness, so WF is an invariant of insertHash incl. thinning and growth, and that insert programs on the real table realise the canonical sketch; Merge/MergeRead at table level are covered step-wise only (and by the executable wfb = WF on every replayed op, and on the real table by the oracle unique-item-unreachable)",
+        "ChUnique is modelled twice: as a set (SH.Model.Unique, Part 3 theorems) and as the concrete open-addressing table (SH.Model.UniqueTable: buf, place, probing with wrap-around, both rehash loops, the resize relocation loop). Every replayed op is run on both; the table model must reproduce the real table slot by slot (B lines: layout digest, full buf up to 64 slots, and the well-formedness flag). Parts 4/6 prove that every table op commutes with the abstraction, that insertImpl keeps and rehash (both loops) and resize (real loop bound) restore well-formedness, so WF is an invariant of insertHash incl. thinning and growth, and that EVERY program (inserts, Merge, MarshallAppend+MergeRead/UmMarshall, any order and grouping) run on the real table ends well-formed, abstracted by the set model, in the canonical sketch of the inserted set; the executable wfb (= WF, proved) is additionally evaluated on every replayed op and the real table is probed by the oracle unique-item-unreachable",
         "rng.Uint64n(totalWeight) is an input of each model step (theorems hold for every draw); the harness predicts it on a copy of the rng and checks the real code consumed exactly that draw",
         "wire images handed to UmMarshall/MergeRead/ReadFrom are produced by the real MarshallAppend (no malformed sketches); ValueTDigest/percentiles are not modelled",
         "Size(false) is a fixed function of (itemsCount, skipDegree); the theorems are about that pair",
@@ -59,22 +60,25 @@ META = {
     "technique": "Lean 4 theorems over an executable model of ItemValue/ItemCounter/tsValues merge and of the ChUnique sketch (set abstraction, bit trie), all merge trees by induction; differential correspondence op by op with the real code; direct order/grouping oracle on the real code",
     "text": ("Kernel-checked: (1) for every binary merge tree over arbitrary contributions and every stream of random draws, count/min/max/sum/sum-of-squares are "
              "functions of the multiset of leaves (any permutation and grouping agree), the min/max host is the host of a leaf that attains the min/max, the max-count host is "
-             "the host of a leaf with positive count; AddValueCounterHost and ApplyUnique are merges with one leaf; (2) the same for API rows (tsValues.merge); (3) for the sketch, "
+             "the host of a leaf with positive count; AddValueCounterHost, ApplyValues, ApplyValuesLegacy and ApplyUnique are merges with one well-formed leaf whatever the accumulator holds (so every stream of agent-side events, incl. a counter before the first value, is covered); (2) the same for API rows (tsValues.merge), for every subset of selected columns (unselected columns zero in every row, e.g. count not selected); (3) for the sketch, "
              "every program of inserts, Merge and MergeRead-over-the-wire ends in the canonical state of the set of inserted hashes (least skipDegree that fits, the values divisible "
              "by it), for arbitrary size limit; decide-witnesses show the pre-fix Merge/MergeRead violate this; (4) the concrete open-addressing table (buf, probing with wrap-around, "
              "rehash with both loops, resize with its relocation loop) refines the set model: every table op commutes with the abstraction; the invariant WF (every stored "
              "value reachable from its home slot without crossing an empty slot, stored once, itemsCount = occupied slots) is kept by insertImpl and RESTORED by rehash (the pass "
              "over the table plus 'process the first collision chain again') and by resize with the real bound `i < oldSize || buf[i] != 0`, hence invariant across insertHash incl. "
-             "thinning and growth; for every stream of inserts from the empty table the real table is well-formed, its abstraction equals the set model and canonical_sketch holds "
-             "for it (table_refines); the executable wfb is proved equivalent to WF. The models are tied to /repo by replaying every generated op on the real objects and on the "
-             "compiled models, comparing value fields, sketch contents and the table layout slot by slot."),
+             "thinning and growth; for EVERY program of inserts, Merge and MarshallAppend+MergeRead (UmMarshall for a zero-value receiver), in any order and grouping, run on the "
+             "concrete table (table_refines_programs / table_canonical): the table is the zero value or well-formed, it holds exactly the inserted hashes divisible by 2^skipDegree, "
+             "skipDegree is the least degree that fits, itemsCount is their number, and skipDegree/itemsCount/values equal those of the set model (canonical_sketch); corollary "
+             "table_order_independent: two programs inserting the same set of hashes give tables with equal values, skipDegree and itemsCount (hence equal Size()). The executable "
+             "wfb is proved equivalent to WF. The models are tied to /repo by replaying every generated op on the real objects and on the compiled models, comparing value fields, "
+             "sketch contents and the table layout slot by slot."),
     "note": ("Trusted: Lean kernel, the model<->code correspondence on generated programs (incl. sketches above 2^16 values), exact-domain float arithmetic. "
-             "Hypotheses of the table theorems, maintained by the code: one free slot for rehash/resize (itemsCount <= maxFill = half the table before every insert), new size >= 2x old "
-             "size for resize, table size >= 4 (initial degree 4). STILL PARTIAL: the program-level table_refines is proved for insert programs; Merge and MarshallAppend+MergeRead at "
-             "table level are covered step-wise (their loops are folds of the proved insertHash step, preceded by the proved rehash/resize) but not assembled into one program theorem; "
-             "for them wfb (= WF, proved) is evaluated by the driver after every replayed op and the real table is probed for every stored value (oracle unique-item-unreachable). "
-             "A decide counter-example shows that with the resize loop shortened to `i < oldSize` (seeded C03-2) all value-level theorems still hold but a wrapped value is stranded and "
-             "the next insert of it is counted twice. The theorems of Part 3 are about the code after fixes/C04-chunique-merge.diff (/repo e786491b). Not decided: IEEE rounding outside "
-             "the exact domain; ApplyUnique rescaling is modelled only where the division is exact; t-digest is not modelled."),
+             "Hypotheses of the table theorems, all maintained by the code and derived inside the program theorem: one free slot for rehash/resize (itemsCount <= maxFill = half the "
+             "table before every insert), new size >= 2x old size for resize, table size >= 4 (2 <= initial degree; the code has 4), hashes below 2^bits. table_refines is no longer "
+             "partial: Merge (zero item + fold of the insertHash step over rhs.buf in slot order after the adoption rehash), MergeRead (adoption rehash, resize, fold over the wire list) "
+             "and UmMarshall are inside the single program theorem. A decide counter-example shows that with the resize loop shortened to `i < oldSize` (seeded C03-2) all value-level "
+             "theorems still hold but a wrapped value is stranded and the next insert of it is counted twice. The theorems are about the code after fixes/C04-chunique-merge.diff "
+             "(/repo e786491b). Not modelled/decided: malformed wire images (duplicates, values not divisible by 2^skipDegree), IEEE rounding outside the exact domain; ApplyUnique "
+             "rescaling only where the division is exact; t-digest."),
     "design_ref": "DESIGN.md §6 C04",
 }
